@@ -3,6 +3,7 @@ PROP = 'C11'
 LEAN_MODULES = ['FalconModel.Handlers', 'FalconModel.HandlersRule', 'FalconModel.MediaTypeProofs', 'FalconModel.RequestMedia', 'FalconModel.RequestMediaProofs']
 DRIVERS = ['mhdriver']
 THEOREMS = [
+    'Mt.parsed_type_is_lower', 'Mt.lower_idem',
     # falcon/media/handlers.py: the memoising resolver over the mutable mapping (model Mh, the code after F08/F09)
     'Mh.step_coherent', 'Mh.resolve_on_coherent', 'Mh.history_coherent', 'Mh.resolve_fresh',
     'Mh.xrun_coherent', 'Mh.resolve_fresh_x', 'Mh.copy_preserves_mapping', 'Mh.resolve_rule_fresh',
@@ -16,6 +17,7 @@ THEOREMS = [
     'Mt.bestLoop_spec', 'Mt.bestMatch_never_q0_or_unmatched', 'Mt.bestMatch_is_first_max', 'Mt.malformed_only_value_errors',
 ]
 STATEMENTS = {
+    'Mt.parsed_type_is_lower': 'the type and subtype of every parsed media type / media range are in lower case (lower is idempotent): spellings that differ only in the ASCII case of type or subtype are indistinguishable to quality / best_match / the handler rule (fix a19fe30, finding F43; RFC 9110 8.3.1)',
     'Mh.resolve_fresh': 'for every resolution rule f and every history of set / delete / clear / |= / LRU evictions / resolutions starting from a coherent memo, a resolution returns f of the CURRENT mapping',
     'Mh.resolve_fresh_x': 'the same for histories that also contain update / pop / popitem / setdefault / copy (each is a history of the basic operations)',
     'Mh.resolve_rule_fresh': 'resolve_fresh_x instantiated with the concrete rule of Handlers.resolve (missing or */* type -> default type; exact key; else mediatypes.best_match over the keys; else 415) on an object created with an empty memo',
